@@ -8,6 +8,7 @@ import z3
 from . import sorts as T
 from . import source
 from .sorts import V, is_, ln, at
+from .symexec import EXC_SUPER  # noqa: E402
 from .symexec import (NotFormed, PyVal, Closure, Static, PyTuple, Flow, VC, State, Contract, Registry, fresh,
                       feasible, exc_isa)
 from .symexpr import ExprMixin, BoundBuiltin, is_term
@@ -180,7 +181,9 @@ class Executor(ExprMixin):
                 cname, _, m = (fv.name or '').partition('.')
                 if m not in self.reg.classes.get(cname, {}).get('static', ()):
                     if m in self.reg.classes.get(cname, {}).get('classm', ()):
-                        args = [Static('class:' + cname)] + list(args)
+                        # classmethod reached through a run-time class value (dynamic dispatch): cls is that value
+                        cls_arg = fv.self_val if (is_term(fv.self_val) and self.c.params.get('cls')) else Static('class:' + cname)
+                        args = [cls_arg] + list(args)
                     else:
                         args = [fv.self_val] + list(args)
             elif isinstance(fv.self_val, Static) and fv.name:
@@ -217,6 +220,8 @@ class Executor(ExprMixin):
             if p in self.reg.externals:
                 return self.reg.externals[p](self, st, args, kwargs, node)
             raise NotFormed(f'call of {p} is not modelled')
+        if is_term(fv) and 'construct:cls' in self.reg.externals and not feasible(st, z3.Not(is_('Cls', fv))):
+            return self.reg.externals['construct:cls'](self, st, [fv] + list(args), kwargs, node)
         if is_term(fv):
             return self.call_fn_value(st, fv, args, kwargs, node)
         raise NotFormed(f'call of {fv!r}')
@@ -967,6 +972,10 @@ class Executor(ExprMixin):
                     s = s.add(ln(L) == ln(cur) + 1, ln(cur) >= 0, at(L, ln(cur)) == arg,
                               z3.ForAll([kk], z3.Implies(z3.And(0 <= kk, kk < ln(cur)), at(L, kk) == at(cur, kk)),
                                         patterns=[at(L, kk)]))
+                    for lem in getattr(self.reg, 'append_lemmas', ()):
+                        # lemmas about prefix-determined spec functions (proved by induction as LEMMA obligations of the
+                        # property that registers them): f(cur + [x], k) == f(cur, k) for k <= len(cur)
+                        s = s.add(*lem(L, cur))
                     items = s.known_items(cur)
                     if items is not None:
                         s = s.know(L, items + [arg])
@@ -1119,6 +1128,12 @@ class Executor(ExprMixin):
     def s_Raise(self, n, st):
         if n.exc is None:
             raise NotFormed('bare raise')
+        # raise SomeError(<message ...>): the message arguments are not evaluated (they only build text)
+        if isinstance(n.exc, ast.Call):
+            f = n.exc.func
+            nm = f.id if isinstance(f, ast.Name) else f.attr if isinstance(f, ast.Attribute) else None
+            if nm and (nm in EXC_SUPER or nm.endswith('Exception') or nm.endswith('Error')):
+                return [Flow('exc', st, nm)]
 
         def k(s, v):
             if isinstance(v, Static) and (v.path.startswith('excinst:') or v.path.startswith('exc:')):
